@@ -171,6 +171,27 @@ func scripts(maxLen int, modes []int) []script {
 	return out
 }
 
+// chainScripts: Bootstrap; call on import 0; a call pipelined on it; a call
+// pipelined on that pipelined call (three levels), every mode combination,
+// early and late gatekeeper.
+func chainScripts() []script {
+	var out []script
+	modes := []int{rpcsim.ModeReturn, rpcsim.ModeAckGate, rpcsim.ModeCap}
+	for _, m1 := range []int{rpcsim.ModeCap, rpcsim.ModeAckGate} {
+		for _, m2 := range modes {
+			for _, m3 := range modes {
+				for _, late := range []bool{false, true} {
+					sc := script{late: late}
+					sc.steps = []step{{kind: 'B', q: 0}, {kind: 'I', q: 1, mode: m1, wait: 0}, {kind: 'P', q: 2, base: 1, mode: m2}, {kind: 'P', q: 3, base: 2, mode: m3}}
+					sc.qs = []qinfo{{boot: true, base: -1}, {mode: m1, base: -2}, {mode: m2, base: 1, path: true}, {mode: m3, base: 2, path: true}}
+					out = append(out, sc)
+				}
+			}
+		}
+	}
+	return out
+}
+
 type outcome struct {
 	closeAt   int // wire length when the harness called Close (-1: not yet)
 	sim       *rpcsim.Sim
@@ -965,6 +986,7 @@ func main() {
 			return []vlib.Family{
 				peerFamily("peer-calls<=3,dev1", scripts(3, modes3), vsched.Config{MaxPreempt: 1, MaxFree: 1, MaxTotal: 1, MaxSteps: 30000}),
 				connFamily("conn-calls<=3,dev1", cprogs(3), vsched.Config{MaxPreempt: 1, MaxFree: 1, MaxTotal: 1, MaxSteps: 30000}),
+				peerFamily("peer-chains,dev1", chainScripts(), vsched.Config{MaxPreempt: 1, MaxFree: 1, MaxTotal: 1, MaxSteps: 30000}),
 				embargoFamily("embargo,dev1", vsched.Config{MaxPreempt: 1, MaxFree: 1, MaxTotal: 1, MaxSteps: 30000}),
 			}
 		},
